@@ -31,13 +31,159 @@ pub fn prop(id: &str) -> (ScreenProp, u64, u64) {
                     judge: any_rule(SINGLE_RULES),
                     check_cursor: true,
                 },
-                20_000,
-                2_000_000,
+                150_000,
+                20_000_000,
+            )
+        }
+        "C02" => {
+            let base = GenOpts::multi();
+            let mut bottom = GenOpts::multi();
+            bottom.bottom = true;
+            (
+                ScreenProp {
+                    id: "C02",
+                    opts: vec![("multi-top", base, 8), ("multi-bottom-alignment", bottom, 2)],
+                    judge: any_rule(MEMBER_RULES),
+                    check_cursor: true,
+                },
+                120_000,
+                10_000_000,
+            )
+        }
+        "C03" => {
+            let mut single = GenOpts::single();
+            single.log_weight = 3;
+            let mut multi = GenOpts::multi();
+            multi.log_weight = 3;
+            multi.finish_weight = 2;
+            multi.hz = vec![None, Some(1), Some(2), Some(20), Some(255)];
+            multi.empty_lines = true;
+            let mut limited = multi.clone();
+            limited.hz = vec![Some(1), Some(1), Some(3)];
+            limited.exhaust = true;
+            (
+                ScreenProp {
+                    id: "C03",
+                    opts: vec![("single-bar", single, 3), ("multi", multi, 5), ("multi-exhausted-limiter", limited, 3)],
+                    judge: any_rule(LOG_RULES),
+                    check_cursor: false,
+                },
+                150_000,
+                20_000_000,
+            )
+        }
+        "C04" => {
+            let mut single = GenOpts::single();
+            single.finish_weight = 4;
+            single.exhaust = true;
+            single.hz = vec![None, Some(1), Some(2), Some(20), Some(255)];
+            single.max_ops = 25;
+            let mut multi = GenOpts::multi();
+            multi.finish_weight = 4;
+            multi.exhaust = true;
+            multi.hz = vec![None, Some(1), Some(3), Some(20), Some(255)];
+            multi.max_bars = 5;
+            multi.max_ops = 30;
+            (
+                ScreenProp {
+                    id: "C04",
+                    opts: vec![("single-bar", single, 4), ("multi", multi, 6)],
+                    judge: Box::new(judge_c04),
+                    check_cursor: false,
+                },
+                120_000,
+                10_000_000,
+            )
+        }
+        "C19" => {
+            let sizes_w: Vec<u16> = (1..=12).collect();
+            let sizes_h: Vec<u16> = (1..=8).collect();
+            let mut single = GenOpts::single();
+            single.widths = sizes_w.clone();
+            single.heights = Some(sizes_h.clone());
+            single.ansi = false;
+            let mut multi = GenOpts::multi();
+            multi.widths = (4..=12).collect();
+            multi.heights = Some(sizes_h.clone());
+            multi.max_bars = 6;
+            let mut tall = GenOpts::multi();
+            tall.widths = vec![20, 40];
+            tall.heights = Some(vec![2, 3, 4, 5, 6]);
+            tall.max_bars = 12;
+            tall.multiline = true;
+            let mut wide = single.clone();
+            wide.wide = true;
+            wide.widths = (2..=12).collect();
+            (
+                ScreenProp {
+                    id: "C19",
+                    opts: vec![("single-small-terminal", single, 4), ("multi-small-terminal", multi, 4), ("multi-many-bars", tall, 3), ("single-wide-chars", wide, 1)],
+                    judge: any_rule(GEOMETRY_RULES),
+                    check_cursor: false,
+                },
+                120_000,
+                10_000_000,
             )
         }
         _ => unreachable!(),
     }
 }
+
+fn judge_c04(_cfg: &crate::world::WorldCfg, ops: &[crate::world::Op], out: &crate::screen::Outcome) -> Option<Judged> {
+    use crate::world::Op;
+    for o in &out.op_obs {
+        if o.finishing && o.expect_flush && o.flushed == 0 {
+            return Some(Judged {
+                rule: "no-final-frame",
+                detail: format!("{} (op {}) on B{:?} caused no flush at all: the final state was never painted", o.name, o.index, o.bar),
+            });
+        }
+        if o.drop_finished && o.calls > 0 {
+            return Some(Judged {
+                rule: "drop-of-finished-bar-writes",
+                detail: format!("dropping the already finished B{:?} (op {}) caused {} terminal calls", o.bar, o.index, o.calls),
+            });
+        }
+    }
+    if let Some(f) = &out.fail {
+        if matches!(f.rule, "final-frame-missing" | "final-frame-stale") {
+            return Some(Judged { rule: f.rule, detail: f.detail.clone() });
+        }
+        let finishing = matches!(
+            ops.get(f.op_index),
+            Some(Op::Finish(_) | Op::FinishMsg(..) | Op::FinishClear(_) | Op::Abandon(_) | Op::AbandonMsg(..) | Op::FinishStyle(_) | Op::DropBar(_) | Op::DropOne(_))
+        );
+        if finishing && matches!(f.rule, "frame-row-missing" | "residue-row" | "member-content" | "member-stale" | "member-missing" | "cleared-bar-visible" | "row-order" | "blank-row") {
+            return Some(Judged { rule: "final-frame-wrong", detail: f.detail.clone() });
+        }
+        return None;
+    }
+    if let Some(g) = &out.getter_fail {
+        return Some(Judged { rule: "getter-mismatch", detail: g.clone() });
+    }
+    None
+}
+
+pub const MEMBER_RULES: &[&str] = &[
+    "residue-row", "member-duplicated", "removed-bar-visible", "frame-not-cleared", "member-stale",
+    "member-content", "member-order", "member-missing", "cleared-bar-visible", "blank-row-in-frame",
+    "blank-row", "cursor-not-fresh-line", "bar-row-in-scrollback", "panic",
+];
+
+pub const GEOMETRY_RULES: &[&str] = &[
+    "log-missing", "row-duplicated", "residue-row", "frame-row-missing", "blank-row", "blank-row-missing", "row-order",
+    "bar-row-in-scrollback", "panic", "member-duplicated", "member-stale", "member-content", "member-missing",
+    "blank-row-in-frame", "log-duplicated", "log-below-bar", "cleared-bar-visible", "removed-bar-visible",
+];
+
+pub const LOG_RULES: &[&str] = &["log-missing", "log-duplicated", "log-reordered", "log-below-bar", "panic"];
+
+pub const MULTI_RULES: &[&str] = &[
+    "residue-row", "member-duplicated", "removed-bar-visible", "frame-not-cleared", "member-stale",
+    "member-content", "member-order", "member-missing", "cleared-bar-visible", "blank-row-in-frame",
+    "blank-row", "cursor-not-fresh-line", "bar-row-in-scrollback", "panic",
+    "final-frame-stale", "final-frame-missing", "log-missing", "log-duplicated", "log-reordered", "log-below-bar",
+];
 
 pub fn run(id: &str, cfg: &RunCfg) -> PropResult {
     let (p, quick, thorough) = prop(id);
